@@ -249,6 +249,17 @@ fn sdk_load(fmt: &str, asset: &[u8]) -> Loaded {
     }
 }
 
+/// Signature of a panic inside a write / remove. The BMFF handler shifts *every* absolute offset (stco / co64 /
+/// iloc / ...) by the size delta of the C2PA box, also offsets of data located before the box; when the box
+/// shrinks and such an offset is smaller than the delta the subtraction overflows (one defect, many panic sites).
+fn panic_sig(kind: &str, op: &str, p: &str) -> String {
+    if is_bmff(kind) && p.contains("bmff_io.rs") && p.contains("subtract with overflow") {
+        format!("C07:bmff-offset-underflow-panic:{op}")
+    } else {
+        format!("C07:{op}-panic:{kind}:{}", vh::core::panic_site(p))
+    }
+}
+
 fn short(e: &str) -> String {
     e.chars().take(160).collect()
 }
@@ -393,7 +404,7 @@ fn judge(run: &Run, env: &Env, c: &Case) -> CaseResult {
                     None => run.count("op:write-on-fresh"),
                 }
                 let out = match sdk_write(fmt, ext, c.via_file, &cur, &s) {
-                    Err(p) => return Err(Fail::new(format!("C07:write-panic:{kind}:{}", vh::core::panic_site(&p)), format!("{ctx}: panic {p}"))),
+                    Err(p) => return Err(Fail::new(panic_sig(kind, "write", &p), format!("{ctx} on {:?} ({}): panic {p}", c.asset, short(&built.desc)))),
                     Ok(Err(e)) => {
                         if e.starts_with("harness io") {
                             run.inconclusive(format!("{ctx}: {e}"));
@@ -456,7 +467,7 @@ fn judge(run: &Run, env: &Env, c: &Case) -> CaseResult {
                 let ctx = format!("{kind} op#{i} remove after {prev_op} (model: {})", model.as_ref().map(|m| format!("{}-byte store", m.len())).unwrap_or("none".into()));
                 run.count(if model.is_some() { "op:remove-with-store" } else { "op:remove-without-store" });
                 let out = match sdk_remove(fmt, ext, c.via_file, &cur) {
-                    Err(p) => return Err(Fail::new(format!("C07:remove-panic:{kind}:{}", vh::core::panic_site(&p)), format!("{ctx}: panic {p}"))),
+                    Err(p) => return Err(Fail::new(panic_sig(kind, "remove", &p), format!("{ctx} on {:?} ({}): panic {p}", c.asset, short(&built.desc)))),
                     Ok(Err(e)) => {
                         if e.starts_with("harness io") {
                             run.inconclusive(format!("{ctx}: {e}"));
@@ -493,7 +504,7 @@ fn judge(run: &Run, env: &Env, c: &Case) -> CaseResult {
                 let probe = store_a(kind, 100 + i, 0xFEED ^ i as u64);
                 let pctx = format!("{ctx}, then probe write({} bytes)", probe.len());
                 match sdk_write(fmt, ext, false, &out, &probe) {
-                    Err(p) => return Err(Fail::new(format!("C07:write-panic:{kind}:{}", vh::core::panic_site(&p)), format!("{pctx}: panic {p}"))),
+                    Err(p) => return Err(Fail::new(panic_sig(kind, "write", &p), format!("{pctx}: panic {p}"))),
                     Ok(Err(e)) => return Err(Fail::new(format!("C07:asset-rejected-after-remove:{kind}"), format!("{pctx}: {}", short(&e)))),
                     Ok(Ok(po)) => check_written(kind, fmt, &po, &probe, &pctx)?,
                 }
@@ -656,7 +667,7 @@ fn main() {
     }
 
     // ---- random op sequences, one independent stream per kind ---------------------------------------------
-    let n_seq: u32 = run.scale(60, 2000);
+    let n_seq: u32 = run.scale(250, 4000);
     std::thread::scope(|sc| {
         for k in &kinds {
             let run = &run;
